@@ -31,6 +31,7 @@ ASSUMPTIONS = [
     "entries whose catalogue stage is 'parse' state a rule of the file reader itself and must be refused by the reader, not later",
     "mutations are applied with openpyxl in values mode (cached formula results replace the formulas of databooks and program books)",
     "generated program-book bases mark up to two rate/probability transition parameters targetable and hold two programs with constant spending",
+    "runs whose initial conditions are refused with the dedicated BadInitialization error are outside the domain (counted; C07 decides them)",
     "generated databook bases carry one extra unit-less databook parameter (like 'contacts' in the library SIR framework)",
     "the library tb program book (about a minute per read) is only checked unchanged, not mutated; malaria (framework only, 139 parameters) is only checked unchanged in the enumerated tier",
 ]
@@ -92,6 +93,20 @@ SMALL_SPEC = {
     "labels": ["fixed:small-spec"],
 }
 
+
+# the smallest valid model: one compartment, no transitions, one unit-less databook parameter (the Format column of its workbook is entirely empty)
+TINY_SPEC = {
+    "comps": [{"name": "c0", "kind": "ord", "db": True}],
+    "characs": [],
+    "pars": [{"name": "u0", "fmt": None, "ts": None, "fn": None, "db": True, "min": None, "max": None, "tgt": False, "timed": False, "deriv": False}],
+    "links": [],
+    "inter": [],
+    "cascades": [],
+    "settings": {"start": 2000.0, "end": 2002.0, "dt": 0.5},
+    "pops": ["pa"],
+    "data": {"years": [2000.0], "q": {"c0": {"pa": {"a": 10.0}}, "u0": {"pa": {"a": 3.0}}}, "yf": {}, "myf": {}, "tr": [], "iw": {}},
+    "labels": ["fixed:tiny-spec"],
+}
 
 # --------------------------------------------------------------------------------------------------- plumbing
 
@@ -246,6 +261,10 @@ class _Stage:
     def __exit__(self, et, e, tb):
         if e is None or isinstance(e, (Violation, Discard, HarnessError, KeyboardInterrupt)) or not isinstance(e, Exception):
             return False
+        if type(e).__name__ == "BadInitialization" and self.stage == "run":
+            # the dedicated refusal of initial conditions that cannot be reproduced (e.g. characteristic 1e10 vs member 1e10 - 50 within the
+            # solver's tolerance): whether such numbers must be accepted is decided by C07, here the case is outside the domain
+            raise Discard("initial conditions refused with BadInitialization (decided by C07)") from e
         raise Violation(ID, _stage_bucket(self.stage, e), "%s stage '%s': %s" % (self.context, self.stage, _describe(e))) from e
 
 
@@ -846,6 +865,7 @@ def static_cases(tier):
     for order in ORDERS:
         for values in VALUES:
             yield {"mode": "chain", "spec": SMALL_SPEC, "order": order, "values": values}
+    yield {"mode": "chain", "spec": TINY_SPEC, "order": "reread", "values": "as-spec"}
     # rules that are stated name by name (reserved names): every site on the small fixed model, in every run
     if tier != "thorough":
         for target in ("framework", "databook"):
